@@ -333,3 +333,135 @@ func ra4Symbols(w *World) {
 	w.floor("commit helper call sites", nCommitCalls, 2)
 	_ = token.NoPos
 }
+
+// RA4d / RA4e (C16): registering a file's extension numbers.
+//
+// RA4d — only the goroutine that actually committed the file registers its extension numbers.
+// Symbols.Import checks "already imported?" under the read lock, and importFile / importResult
+// re-check under the write lock and tell their caller whether *this* call committed the file. Two
+// concurrent imports of one dependency can both pass the first check; the loser must stop after
+// the second, otherwise it registers the same extension numbers again and reports the file as
+// colliding with itself — a collision that compiling the same files together never reports. In
+// each …WithExtensions function the AddExtension walk must be dominated by the "committed" result
+// of the import call being true (branch facts).
+//
+// RA4e — the walk covers nested scopes. Extensions can be declared inside messages at any depth;
+// the registration must visit every descriptor of the file (package walk's Descriptors /
+// DescriptorsEnterAndExit), not only the file-level Extensions() list: a nested extension whose
+// number is not registered is not found by LookupExtension, and a later file reusing the number
+// is accepted although compiling both together reports the collision.
+func ra4dExtensionRegistration(w *World) {
+	w.rule("RA4")
+	p := w.pkg("linker")
+	addExt := w.fn("linker", "(*Symbols).AddExtension")
+	if p == nil || addExt == nil {
+		return
+	}
+	info := p.TypesInfo
+	n := 0
+	for _, name := range []string{"(*Symbols).importFileWithExtensions", "(*Symbols).importResultWithExtensions"} {
+		fr := w.fn("linker", name)
+		if fr == nil {
+			continue
+		}
+		n++
+		// the import call and the variable bound to its boolean result
+		var committed types.Object
+		ast.Inspect(fr.Decl.Body, func(x ast.Node) bool {
+			as, ok := x.(*ast.AssignStmt)
+			if !ok || len(as.Rhs) != 1 || len(as.Lhs) != 2 {
+				return true
+			}
+			c, ok := ast.Unparen(as.Rhs[0]).(*ast.CallExpr)
+			if !ok {
+				return true
+			}
+			f := callee(info, c)
+			if f == nil || !(strings.HasPrefix(f.Name(), "importFile") || strings.HasPrefix(f.Name(), "importResult")) {
+				return true
+			}
+			if id, ok := as.Lhs[0].(*ast.Ident); ok {
+				if t := info.TypeOf(id); t != nil {
+					if bt, ok := t.Underlying().(*types.Basic); ok && bt.Kind() == types.Bool {
+						committed = info.Defs[id]
+						if committed == nil {
+							committed = info.Uses[id]
+						}
+					}
+				}
+			}
+			return true
+		})
+		// where AddExtension is called (directly, or inside a callback literal)
+		var addCalls []*ast.CallExpr
+		ast.Inspect(fr.Decl.Body, func(x ast.Node) bool {
+			if c, ok := x.(*ast.CallExpr); ok {
+				if f := callee(info, c); f != nil && f == addExt.Obj {
+					addCalls = append(addCalls, c)
+				}
+			}
+			return true
+		})
+		key := "register-only-after-commit|" + fr.Name
+		if len(addCalls) == 0 {
+			w.undecided(key, fr.Decl.Pos(), "no AddExtension call found")
+			continue
+		}
+		if committed == nil {
+			w.violation(key, fr.Decl.Pos(), "the import call's result no longer says whether this call committed the file: a goroutine that lost the double-checked race registers the file's extension numbers a second time and reports the file as colliding with itself")
+		} else {
+			g := buildCFG(info, fr.Decl.Body)
+			d := &Dataflow{G: g, Must: true, Init: Facts{}, Transfer: func(n ast.Node, in Facts) Facts { return in }}
+			d.Branch = func(leaf ast.Expr, truth bool, s Facts) Facts {
+				if id, ok := ast.Unparen(leaf).(*ast.Ident); ok && info.Uses[id] == committed && truth {
+					return s.with("committed")
+				}
+				return s
+			}
+			d.Run()
+			okAll := true
+			d.Walk(func(_ *cfg.Block, nd ast.Node, before Facts) {
+				ast.Inspect(nd, func(y ast.Node) bool {
+					c, ok := y.(*ast.CallExpr)
+					if !ok {
+						return true
+					}
+					for _, ac := range addCalls {
+						if ac.Pos() >= c.Pos() && ac.End() <= c.End() && !before["committed"] {
+							okAll = false
+						}
+					}
+					return true
+				})
+			})
+			if okAll {
+				w.ok(key, fr.Decl.Pos(), "extension numbers are registered only on the path where the import call reported that it committed the file")
+			} else {
+				w.violation(key, fr.Decl.Pos(), "AddExtension can run although this call did not commit the file (lost the double-checked race): the same extension numbers are registered twice and a spurious collision is reported")
+			}
+		}
+		// RA4e: AddExtension sits inside a callback handed to package walk
+		key2 := "register-nested-extensions|" + fr.Name
+		parents := parentMap(fr.Decl)
+		inWalk := true
+		for _, ac := range addCalls {
+			found := false
+			for cur := parents[ast.Node(ac)]; cur != nil; cur = parents[cur] {
+				if c, ok := cur.(*ast.CallExpr); ok {
+					if f := callee(info, c); f != nil && f.Pkg() != nil && strings.HasSuffix(f.Pkg().Path(), "/walk") && strings.HasPrefix(f.Name(), "Descriptors") {
+						found = true
+					}
+				}
+			}
+			if !found {
+				inWalk = false
+			}
+		}
+		if inWalk {
+			w.ok(key2, fr.Decl.Pos(), "extension numbers are registered from a walk over every descriptor of the file (nested scopes included)")
+		} else {
+			w.violation(key2, fr.Decl.Pos(), "AddExtension is not driven by package walk's traversal of all descriptors: extensions declared inside messages are skipped, their numbers are not registered, and a later file reusing one is accepted although compiling the files together reports the collision")
+		}
+	}
+	w.floor("…WithExtensions import functions", n, 2)
+}
